@@ -2056,4 +2056,85 @@ func ruleMachineNil(p *Program, r *Reporter) {
 		}
 		r.Check(guarded, key, p.Pos(fn.Pos()), "guarded by a nil test", "this API method dereferences the machine without a recover and without testing that Prepare built one: after a script that Prepare rejected the call panics in the host (nil pointer dereference)")
 	}
+	// the clean-up that runs while a panic unwinds is not under anybody's
+	// recover: in a deferred function of an API method the machine may only be
+	// touched where it has been tested
+	for _, fn := range p.LibFns {
+		if fn.Parent() == nil || !recvNamed(fn.Parent(), "", "Eval") || !ast.IsExported(fn.Parent().Name()) {
+			continue
+		}
+		// deferred by its parent?
+		deferred := false
+		for _, b := range fn.Parent().Blocks {
+			for _, ins := range b.Instrs {
+				if d, ok := ins.(*ssa.Defer); ok {
+					if mc, ok := d.Call.Value.(*ssa.MakeClosure); ok && mc.Fn == ssa.Value(fn) {
+						deferred = true
+					}
+				}
+			}
+		}
+		if !deferred {
+			continue
+		}
+		nth := 0
+		for _, b := range fn.Blocks {
+			for _, ins := range b.Instrs {
+				cc := callOf(ins)
+				if cc == nil || len(cc.Args) == 0 {
+					continue
+				}
+				u, ok := cc.Args[0].(*ssa.UnOp)
+				if !ok || fieldKey(u.X) != "evalfilter.Eval.machine" {
+					continue
+				}
+				nth++
+				key := fmt.Sprintf("%s: deferred clean-up, use %d of the machine is under a nil test", p.FnName(fn.Parent()), nth)
+				g := false
+				for d := b; d.Idom() != nil; d = d.Idom() {
+					iff, ok := terminator(d.Idom()).(*ssa.If)
+					if !ok {
+						continue
+					}
+					bo, ok := iff.Cond.(*ssa.BinOp)
+					if !ok || !(isNilConst(bo.X) || isNilConst(bo.Y)) {
+						continue
+					}
+					other := bo.X
+					if isNilConst(bo.X) {
+						other = bo.Y
+					}
+					if ld, ok := other.(*ssa.UnOp); !ok || fieldKey(ld.X) != "evalfilter.Eval.machine" {
+						continue
+					}
+					nonNil := d.Idom().Succs[1]
+					if bo.Op == token.NEQ {
+						nonNil = d.Idom().Succs[0]
+					}
+					if nonNil == d {
+						g = true
+					}
+				}
+				// a method that tests its own receiver first is safe to call
+				if cal := cc.StaticCallee(); cal != nil && len(cal.Blocks) > 0 && len(cal.Params) > 0 {
+					if iff, ok := terminator(cal.Blocks[0]).(*ssa.If); ok {
+						if bo, ok := iff.Cond.(*ssa.BinOp); ok && (bo.Op == token.EQL || bo.Op == token.NEQ) {
+							if (bo.X == ssa.Value(cal.Params[0]) && isNilConst(bo.Y)) || (bo.Y == ssa.Value(cal.Params[0]) && isNilConst(bo.X)) {
+								derefFirst := false
+								for _, in := range cal.Blocks[0].Instrs {
+									if fa, ok := in.(*ssa.FieldAddr); ok && fa.X == ssa.Value(cal.Params[0]) {
+										derefFirst = true
+									}
+								}
+								if !derefFirst {
+									g = true
+								}
+							}
+						}
+					}
+				}
+				r.Check(g, key, p.Pos(ins.Pos()), "guarded by a nil test", "the deferred clean-up of this API method calls a method of the machine without testing that there is one: when the evaluator has no machine (Prepare was not called, or rejected the script) the run panics, and the clean-up — which runs outside any recover — panics again, so the panic reaches the host and the evaluator's lock stays held")
+			}
+		}
+	}
 }
